@@ -87,6 +87,14 @@ pub fn parse_bytes(s: &str) -> Result<Vec<u8>, ParseSequenceError> {
                                 }
                             })?
                         }
+                        'a' => 0x07,
+                        'b' => 0x08,
+                        'v' => 0x0b,
+                        'f' => 0x0c,
+                        'n' => b'\n',
+                        'r' => b'\r',
+                        't' => b'\t',
+                        '\\' | '?' | '\'' | '"' | '`' => c2 as u8,
                         n if ('0'..='3').contains(&n) => {
                             let octal: String = [
                                 n,
